@@ -9,7 +9,7 @@
 (* the rest of the trace is still examined.  The POSTCONDITION checks that *)
 (* every line was consumed.                                                *)
 (***************************************************************************)
-EXTENDS Exchange, FramingDecision, Json, IOUtils, TLC
+EXTENDS Exchange, FramingDecision, Coding, Json, IOUtils, TLC
 
 Rec == ndJsonDeserialize(IOEnv.TRACE)
 
@@ -25,7 +25,7 @@ TraceInit ==
   /\ st = InitState
   /\ s = [framing |-> "none", headEnd |-> 0, payloadLen |-> 0, frameEnd |-> 0, wireLen |-> 0,
           cw |-> <<>>, cd |-> <<>>, faultKind |-> "none", faultAt |-> 0,
-          status |-> 0, reject |-> FALSE, g19 |-> FALSE, textLen |-> 0]
+          status |-> 0, reject |-> FALSE, g19 |-> FALSE, textLen |-> 0, coding |-> "identity", codedEnd |-> 0]
 
 Step(e) ==
   CASE e.ev = "reset" ->
@@ -40,6 +40,10 @@ Step(e) ==
                    \/ /\ d.f = e.s.framing /\ ~e.s.reject
                       /\ (d.f = "length" /\ e.s.coding = "identity") => d.n = e.s.payloadLen,
                    <<"harness and FramingDecision disagree", l, e.id, d>>)
+         \* likewise for the coding the harness applied: Coding.tla decides what the client must undo
+         /\ LET sel == Selected(e.s.method, e.s.ce, e.s.te) IN
+            Assert(e.s.nocheck \/ sel = "unguarded" \/ e.s.framing = "none" \/ sel = e.s.coding,
+                   <<"harness and Coding disagree", l, e.id, sel>>)
     [] e.ev = "rel"   -> st' = AfterRel(st, e.k) /\ UNCHANGED <<s, sid>>
     [] e.ev = "close" -> st' = AfterClose(st) /\ UNCHANGED <<s, sid>>
     [] e.ev = "call"  -> st' = AfterCall(st, e.op, e.buf) /\ UNCHANGED <<s, sid>>
